@@ -100,6 +100,7 @@ func (g *FnGen) eval(env *Env, x Expr) SVal {
 		}
 		var decls []string
 		var facts []string
+		var refPats []string
 		for _, p := range x.Vars {
 			var srt string
 			var t types.Type
@@ -124,7 +125,8 @@ func (g *FnGen) eval(env *Env, x Expr) SVal {
 				if pt, ok := types.Unalias(t).Underlying().(*types.Pointer); ok {
 					if _, isStruct := pt.Elem().Underlying().(*types.Struct); isStruct {
 						w.heapSort["typ"] = "(Array Int Int)"
-						facts = append(facts, fmt.Sprintf("(and (< 0 %s) (<= %s %s) (= (select %s %s) %d))", name, name, g.allocTerm(env.st).S, g.hget(env.st, "typ").S, name, w.structID(pt.Elem())))
+						facts = append(facts, fmt.Sprintf("(= (select %s %s) %d)", g.hget(env.st, "typ").S, name, w.structID(pt.Elem())))
+						refPats = append(refPats, fmt.Sprintf("(select %s %s)", g.hget(env.st, "typ").S, name))
 					}
 				}
 			}
@@ -144,6 +146,9 @@ func (g *FnGen) eval(env *Env, x Expr) SVal {
 		qn := "forall"
 		if !x.Forall {
 			qn = "exists"
+		}
+		if len(refPats) > 0 && x.Forall {
+			return SVal{Term{fmt.Sprintf("(forall (%s) (! %s :pattern (%s)))", strings.Join(decls, " "), b, strings.Join(refPats, " ")), "Bool"}, types.Typ[types.Bool]}
 		}
 		return SVal{Term{fmt.Sprintf("(%s (%s) %s)", qn, strings.Join(decls, " "), b), "Bool"}, types.Typ[types.Bool]}
 	case *ESel:
@@ -528,6 +533,18 @@ func (g *FnGen) evalCall(env *Env, x *ECall) SVal {
 		return SVal{Term{fmt.Sprintf("(> %s %s)", ref, g.allocTerm(env.old).S), "Bool"}, boolT}
 	case "allocated":
 		a := arg(0)
+		// for references to named structs: "is an allocated object of that type" through the ghost type tag,
+		// which does not change when unrelated objects are allocated
+		if a.T != nil {
+			if pt, ok := types.Unalias(a.T).Underlying().(*types.Pointer); ok {
+				if _, isNamed := types.Unalias(pt.Elem()).(*types.Named); isNamed {
+					if _, isStruct := pt.Elem().Underlying().(*types.Struct); isStruct {
+						w.heapSort["typ"] = "(Array Int Int)"
+						return SVal{Term{fmt.Sprintf("(= (select %s %s) %d)", g.hget(env.st, "typ").S, a.S, w.structID(pt.Elem())), "Bool"}, boolT}
+					}
+				}
+			}
+		}
 		return SVal{Term{fmt.Sprintf("(and (< 0 %s) (<= %s %s))", a.S, a.S, g.allocTerm(env.st).S), "Bool"}, boolT}
 	case "visited", "iterpos":
 		k := 0
@@ -709,43 +726,20 @@ func (g *FnGen) evalCall(env *Env, x *ECall) SVal {
 			}
 			n.vars[pp.Name] = v
 		}
-		if p.Opaque && g.track == nil {
-			bound := false
-			var as, ss []string
+		if p.Opaque {
+			od := w.opaqueDef(g, p)
+			var as []string
 			for _, pp := range p.Params {
-				v := n.vars[pp.Name]
-				if strings.Contains(v.S, "|b:") {
-					bound = true
-				}
-				as = append(as, v.S)
-				ss = append(ss, v.Sort)
+				as = append(as, n.vars[pp.Name].S)
 			}
-			if !bound {
-				g.track = map[string]Term{}
-				g.trackOrder = nil
-				body := g.eval(&n, p.Body)
-				keys := g.trackOrder
-				tr := g.track
-				g.track = nil
-				for _, k := range keys {
-					as = append(as, tr[k].S)
-					ss = append(ss, tr[k].Sort)
-				}
-				name := q("opq:" + p.Name)
-				sig := strings.Join(ss, " ")
-				if prev, ok := w.opqSig[p.Name]; ok && prev != sig {
-					// different heap footprint at this use: fall back to the plain expansion
-					return body
-				}
-				w.opqSig[p.Name] = sig
-				w.decl("opq:"+p.Name, fmt.Sprintf("(declare-fun %s (%s) %s)", name, sig, body.Sort))
-				app := fmt.Sprintf("(%s %s)", name, strings.Join(as, " "))
-				if len(as) == 0 {
-					app = name
-				}
-				g.emit(fmt.Sprintf("(assert (= %s %s))", app, body.S))
-				return SVal{Term{app, body.Sort}, body.T}
+			for _, k := range od.keys {
+				as = append(as, g.hget(env.st, k).S)
 			}
+			app := od.name
+			if len(as) > 0 {
+				app = fmt.Sprintf("(%s %s)", od.name, strings.Join(as, " "))
+			}
+			return SVal{Term{app, od.sort}, od.typ}
 		}
 		return g.eval(&n, p.Body)
 	}
@@ -802,4 +796,75 @@ func (g *FnGen) ghostSel(env *Env, gf *GhostField, tname, field string, b SVal) 
 	}
 	w.heapSort[key] = fmt.Sprintf("(Array Int %s)", srt)
 	return SVal{Term{fmt.Sprintf("(select %s %s)", g.hget(env.st, key).S, b.S), srt}, ft}
+}
+
+// ---------------------------------------------------------------- opaque predicates as spec functions
+
+type opaqueDef struct {
+	name string
+	keys []string // heap components the body reads (transitively)
+	sort string
+	typ  types.Type
+}
+
+// opaqueDef declares, once, an uninterpreted symbol for the predicate over (parameters, heap components read)
+// together with its definitional axiom, triggered on applications of the symbol. Unfolding is then on demand.
+func (w *World) opaqueDef(g *FnGen, p *Pred) *opaqueDef {
+	if od, ok := w.opaques[p.Name]; ok {
+		if od == nil {
+			panic(specError("recursive opaque predicate " + p.Name))
+		}
+		return od
+	}
+	w.opaques[p.Name] = nil
+	defer func() {
+		if w.opaques[p.Name] == nil {
+			delete(w.opaques, p.Name)
+		}
+	}()
+	// evaluate the body over bound parameters and bound heap arrays
+	sub := &FnGen{w: w, fn: g.fn, key: g.key, pkg: p.Pkg, vals: map[ssa.Value]Term{}, initHeap: map[string]Term{}, counters: map[string]int{},
+		assumptions: g.assumptions, params: map[string]SVal{}, symHeap: "hb:" + p.Name + ":"}
+	env := &Env{g: sub, vars: map[string]SVal{}, st: &State{heap: map[string]Term{}}, pkg: p.Pkg}
+	env.old = env.st
+	var decls, args, sorts []string
+	for i, pp := range p.Params {
+		var srt string
+		var t types.Type
+		if strings.HasPrefix(pp.Type, "`") {
+			srt = strings.Trim(pp.Type, "`")
+		} else {
+			var err error
+			t, err = w.resolveType(p.Pkg, pp.Type)
+			if err != nil {
+				panic(specError(err.Error()))
+			}
+			srt = w.sortOf(t)
+		}
+		name := q(fmt.Sprintf("pa:%s:%d", p.Name, i))
+		env.vars[pp.Name] = SVal{Term{name, srt}, t}
+		decls = append(decls, fmt.Sprintf("(%s %s)", name, srt))
+		args = append(args, name)
+		sorts = append(sorts, srt)
+	}
+	body := sub.eval(env, p.Body)
+	if len(sub.lines) > 0 {
+		panic(specError("opaque predicate " + p.Name + " needs side assertions; not supported"))
+	}
+	od := &opaqueDef{name: q("opq:" + p.Name), keys: sub.symKeys, sort: body.Sort, typ: body.T}
+	for _, k := range od.keys {
+		hn := q(sub.symHeap + k)
+		decls = append(decls, fmt.Sprintf("(%s %s)", hn, w.heapSort[k]))
+		args = append(args, hn)
+		sorts = append(sorts, w.heapSort[k])
+	}
+	if len(args) == 0 {
+		w.decl("opq:"+p.Name, fmt.Sprintf("(declare-const %s %s)\n(assert (= %s %s))", od.name, od.sort, od.name, body.S))
+	} else {
+		app := fmt.Sprintf("(%s %s)", od.name, strings.Join(args, " "))
+		w.decl("opq:"+p.Name, fmt.Sprintf("(declare-fun %s (%s) %s)\n(assert (forall (%s) (! (= %s %s) :pattern (%s))))",
+			od.name, strings.Join(sorts, " "), od.sort, strings.Join(decls, " "), app, body.S, app))
+	}
+	w.opaques[p.Name] = od
+	return od
 }
